@@ -744,10 +744,20 @@ symsp = _Namespace(_sp, dict(linalg=_sp_linalg, special=_sp_special))
 
 # ---------------------------------------------------------------- numba ---
 def _njit(*args, **kwargs):
+    """numba.njit -> the undecorated function (py_func semantics); the
+    attribute `py_func` exists as on a numba dispatcher."""
     if len(args) == 1 and callable(args[0]) and not kwargs:
+        try:
+            args[0].py_func = args[0]
+        except AttributeError:
+            pass
         return args[0]
 
     def deco(f):
+        try:
+            f.py_func = f
+        except AttributeError:
+            pass
         return f
     return deco
 
